@@ -7,7 +7,9 @@ Functions under contract (real source, inlined): sid_factory.sid_factory (path b
 
 requires  p: ANY string (fully symbolic, unbounded; shapes by number of '/'-segments up to the longest path template + 1),  c in the configured path configurations
 ensures   Sid(path=p, config=c) raises nothing  (in particular no ResolvaException from the duplicate-placeholder check escapes)
-          typed(result)  =>  result.path(c) == Path(p)           (the statement's own clause, as equality of paths; it quantifies over every mutation class)
+          typed(result)  =>  str(result.path(c)) == p            (the statement's own clause; it quantifies over every mutation class)
+          recorded finding C06-pathnorm (same root as C05-pathnorm): a path with an empty or '.' component at the place of a free-text
+          field (asset, node) is typed with that empty / '.' field, and pathlib drops the component when the path is rendered again
           untyped result: empty type, no fields
 """
 from __future__ import annotations
@@ -56,9 +58,8 @@ def run(it, st, case):
         st.oblige(f'{name}:path-of-the-result-raises-nothing', False, ('C06',), info={'exception': V.exc_name(e)}); return 'ok'
     if back is None:
         st.oblige(f'{name}:typed-result-has-exactly-this-path', False, ('C06',), info={'path': None, 'type': repr(t)}); return 'ok'
-    # equality of paths: pathlib's own normalisation (a trailing "/", "//", a "." component) is not spil's behaviour
-    want = it.call(it.getattr(it.module('pathlib'), 'Path'), [SStr([p])], {})
-    st.oblige(f'{name}:typed-result-has-exactly-this-path', it.py_eq(back, want), ('C06',), info={'type': repr(t)})
+    st.inputs['result_fields'] = [v for _, v in f]
+    st.oblige(f'{name}:typed-result-has-exactly-this-path', it.py_eq(it.to_str(back), SStr([p])), ('C06',), info={'type': repr(t)})
     st.observed['back'] = it.to_str(back)
     return 'ok'
 
@@ -83,7 +84,10 @@ def replay(case, ob, inputs):
     y = r[1]
     if not y: return {'confirmed': bool(y.type), 'call': call, 'observed': repr(C.native_view(y)), 'expected': 'untyped'}
     b = C.call_native(lambda: y.path(c))
-    import pathlib
-    ok = b[0] == 'ret' and b[1] is not None and b[1] == pathlib.Path(p)
+    ok = b[0] == 'ret' and b[1] is not None and str(b[1]) == p
     return {'confirmed': not ok, 'call': call + f'.path({c!r})', 'observed': repr((C.native_view(y), str(b[1]) if b[0] == 'ret' else b))[:400], 'expected': f'untyped, or typed with path == {p!r}',
             'reproducer': f'from spil import Sid; y = {call}; print(y.type, y.path({c!r}))'}
+
+def in_known_class(entry, inputs):
+    """C06-pathnorm: the typed result has a field that is '' or '.' (pathlib.Path drops such a component when rendering)"""
+    return isinstance(inputs, dict) and any(v in ('', '.') for v in (inputs.get('result_fields') or []))
